@@ -5,6 +5,7 @@
 package main
 
 import (
+	"sync/atomic"
 	"time"
 	"errors"
 	"encoding/json"
@@ -193,7 +194,8 @@ func main() {
 			select {
 			case x := <-ch:
 				res, err = x.r, x.e
-			case <-time.After(to):
+			case <-time.After(hangTimeout(to)):
+				noteHang()
 				err = implViolation("the case did not return within %v: a call into the library never returns (deadlock or unbounded loop)", to)
 			}
 		}
@@ -234,4 +236,20 @@ func main() {
 		panic(err)
 	}
 	fmt.Printf("%s: %d cases, %d distinct non-trivial, %d files\n", id, meta.Evaluations, meta.Distinct, len(meta.Files))
+}
+
+// Once a call into the library has hung, later hangs are recognised quickly: the first one is given
+// the full patience, the following ones a few seconds (a blocked call never returns anyway), so that a
+// deadlock repeated in hundreds of generated cases does not take hours to report.
+var hangs atomic.Int32
+
+func noteHang() { hangs.Add(1) }
+func hangTimeout(full time.Duration) time.Duration {
+	switch n := hangs.Load(); {
+	case n == 0:
+		return full
+	case n < 3:
+		return 5 * time.Second
+	}
+	return 2 * time.Second
 }
